@@ -109,6 +109,19 @@ func (c *LRUCache) Put(key uint64, bm *roaring.Bitmap) {
 		c.lruList.MoveToFront(elem)
 		item := elem.Value.(*lruCacheItem)
 		item.bm = bm
+
+		// the new bitmap may have a different size than the one it replaces:
+		// account for it and make room again if necessary.
+		newSize := bm.GetSizeInBytes()
+		c.curSize = c.curSize - item.size + newSize
+		item.size = newSize
+
+		for c.curSize > c.maxSize && c.lruList.Len() > 0 {
+			item := c.lruList.Remove(c.lruList.Back()).(*lruCacheItem)
+			c.curSize -= item.size + uint64(lruCacheItemSize) + uint64(listElementSize)
+			delete(c.entries, item.key)
+		}
+
 		return
 	}
 
